@@ -359,8 +359,8 @@ impl Property for C40 {
         "tokio paused clock: a 1 ms virtual sleep returns only after the runtime was idle, so the task has drained its socket; AF_UNIX datagram delivery is synchronous with send",
         "measurement content tolerance: 2 units of 2^-32 s (from_seconds scales the fraction by 2^32-1 and truncates)",
     ];
-    const QUICK_CASES: u32 = 30_000;
-    const THOROUGH_CASES: u32 = 1_500_000;
+    const QUICK_CASES: u32 = 150_000;
+    const THOROUGH_CASES: u32 = 3_000_000;
 
     fn strategy(_tier: Tier) -> BoxedStrategy<Case> {
         (crate::gens::u64_interesting(), prop::collection::vec(dgram(), 1..=6))
